@@ -136,6 +136,7 @@ def _prog_call(fn, *args, **kw):
 class _Expr(SymEval):
     def __init__(self, env, owner):
         super().__init__(env, None, {"np", "numpy"})
+        self._local = env  # (the caller's variable dictionary itself: a walrus binds there)
         self.owner = owner
 
     # --- attribute access on the abstract instance
@@ -210,6 +211,16 @@ class _Expr(SymEval):
                 self.eval(a)
             return None
         return self._MISSING
+
+    def e_NamedExpr(self, n):
+        # `(name := value)`: binds the name in the enclosing function's variables and gives the value
+        v = self.eval(n.value)
+        if not isinstance(n.target, ast.Name):
+            raise NotSymbolic("walrus target")
+        self.env[n.target.id] = v
+        if isinstance(getattr(self, "_local", None), dict):
+            self._local[n.target.id] = v
+        return v
 
     def e_Lambda(self, n):
         a = n.args
